@@ -184,3 +184,30 @@ PROPS["C07"] = {"fn": c07, "level": "other",
     "claim": "Decides structurally: every resumed branch is counted once and compared with the user's backtrack_limit so that the error is returned iff the count after the increment exceeds the limit; the branch stack is capped in State::push and vm::run passes a sane cap; the four Repeat*/RepeatEpsilon* arms implement hi-exit, empty-iteration guard, count+1, lo test and greedy/lazy order; every loop the compiler emits is counter-bounded, guarded by the empty-iteration check, or has a body the path condition proves non-empty; min_size is a true lower bound. Exact step counts and 'a tiny search never errors' as a numeric statement are not decided.",
     "note": "Termination of a single delegate search is regex-automata's contract.",
     "explanation": "The statements after the inner 'fail loop of vm::run are path-enumerated with branch conditions as facts; each repeat arm is path-enumerated against its obligation table; compile_repeat branches are checked against template kinds."}
+
+
+import fam_tmpl
+
+
+def c15(run, ctx):
+    fam_tmpl.builder_helpers(run, ctx)
+    fam_tmpl.compile_conditional(run, ctx)
+    fam_tmpl.atomic_and_group_arms(run, ctx)
+
+
+PROPS["C15"] = {"fn": c15, "level": "other",
+    "technique": "abstract interpretation of the compiler's emission template (symbolic instruction list with labels, child fragments opaque) + explicit-stack balance exploration over success/failure edges; parser shape rules for conditionals",
+    "claim": "Decides structurally that compile_conditional emits condition / true / false in order with the Split's fallback leading to the false branch from the original position, that the fallback is cut after the condition succeeds, and that BeginAtomic/EndAtomic balance on every template path including 'condition fails -> false branch'; that parse_conditional makes the first alternative the true branch; that the VM's BackrefExistsCondition tests the group's start slot. Results on concrete inputs are not decided.",
+    "note": "Child fragments are opaque (succeed or fail); the explicit stack is restored on backtrack (C20). Known finding F7 is reported by the balance rule.",
+    "explanation": "The single straight-line path of compile_conditional is interpreted into a symbolic template; every path through the template (fragments succeed or fail to the innermost pending Split) is explored tracking explicit-stack depth."}
+
+
+def _tmp_all_tmpl(run, ctx):
+    fam_tmpl.compile_repeat(run, ctx)
+    fam_tmpl.compile_lookaround_dispatch(run, ctx)
+    fam_tmpl.ctx_rule(run, ctx)
+    fam_tmpl.concat_predicates(run, ctx)
+    fam_tmpl.visit_delegation_gate(run, ctx)
+
+
+PROPS["TMP"] = {"fn": _tmp_all_tmpl, "level": "other", "explanation": "tmp", "technique": "", "claim": "", "note": ""}
